@@ -13,15 +13,33 @@ MsgOf(d) == IF d < 8 THEN [op |-> "upsert", k |-> KeyOf(d \div 4), p |-> [ts |->
             ELSE [op |-> "get", k |-> KeyOf(d - 8), p |-> NoP, t |-> 0]
 InitW == Init /\ wid \in Workloads
 SendW == Send(MsgOf(Digit(wid, sent + 1)))
-NextW == (SendW \/ Handle \/ Recv \/ CommitFull \/ Close) /\ UNCHANGED wid
+NextW == (SendW \/ HandleSnapIdle \/ Handle \/ Recv \/ CommitFull \/ Close) /\ UNCHANGED wid
 SpecW == InitW /\ [][NextW]_<<vars, wid>>
 EmitW == mode = "closed" => PrintT(<<"REPLAY", ToJson([wid |-> wid, b |-> B, msgs |-> wl, points |-> points])>>)
+
+\* --- mixed batches: the database holds an expired packet of k2 (timestamp 1 < cut-off 2) and the eviction
+\* task's scan has queued its CheckExpired, so that message OPENS the first batch; the client's messages fall
+\* into it.  Digits: 0..7 upsert key = d \div 4, ts = 2 + (d \div 2) % 2 (not expired), payload 1 + d % 2;
+\* 8 get k2; 9 snap (the client sees the committed tables)
+StaleP == [ts |-> 1, pl |-> 1]
+Stale == [pk |-> [k \in Keys |-> IF k = "k2" THEN StaleP ELSE NoP], ix |-> {<<1, "k2">>}]
+MsgOfM(d) == IF d < 8 THEN [op |-> "upsert", k |-> KeyOf(d \div 4), p |-> [ts |-> 2 + ((d \div 2) % 2), pl |-> 1 + (d % 2)], t |-> 0]
+             ELSE IF d = 8 THEN [op |-> "get", k |-> "k2", p |-> NoP, t |-> 0] ELSE SnapMsg
+InitM == /\ durable = Stale /\ disk = Stale /\ work = Stale /\ opener = "none" /\ open = FALSE /\ n = 0
+         /\ inbox = <<[op |-> "check", k |-> "k2", p |-> NoP, t |-> 1]>> /\ replied = FALSE
+         /\ sent = 0 /\ acked = 0 /\ mode = "run" /\ now = Now0
+         /\ batchUps = {} /\ committedUps = {} /\ published = {<<"k2", StaleP>>} /\ wl = <<>>
+         /\ points = <<[sent |-> 0, acked |-> 0, pk |-> Stale.pk, ix |-> {[t |-> 1, k |-> "k2"]}]>>
+         /\ wid \in Workloads
+SendM == Send(MsgOfM(Digit(wid, sent + 1)))
+NextM == (SendM \/ HandleSnapIdle \/ Handle \/ Recv \/ CommitFull \/ Close) /\ UNCHANGED wid
+SpecM == InitM /\ [][NextM]_<<vars, wid>>
 
 \* --- eviction workloads: upserts with timestamps on both sides of the cut-off, clock stopped; a line per
 \* quiescent state (everything committed, nothing left to evict) with the content that must remain
 Ups == [op : {"upsert"}, k : Keys, p : Packets, t : {0}]
 SendE == \E m \in Ups : Send(m)
-NextE == (SendE \/ Handle \/ Recv \/ CommitFull \/ CommitTimeout \/ EvictScan) /\ UNCHANGED wid
+NextE == (SendE \/ HandleSnapIdle \/ Handle \/ Recv \/ CommitFull \/ CommitTimeout \/ EvictScan) /\ UNCHANGED wid
 SpecE == Init /\ wid = 0 /\ [][NextE]_<<vars, wid>>
 Quiescent == /\ mode = "run" /\ inbox = <<>> /\ ~open /\ ~replied /\ sent = MaxMsgs /\ acked = sent
              /\ {e \in durable.ix : e[1] < Cutoff} = {}
